@@ -12,5 +12,7 @@ CONSTANTS
   AnyMaxHist = 4
   AnyMaxLen = 2
   AnyMaxSteps = 8
+  AnyFaults = TRUE
+  MaxFaults = 1
 INVARIANTS TypeOK OldOrNew
 CHECK_DEADLOCK FALSE
